@@ -359,12 +359,16 @@ def replay(case):
 # known-finding classifiers (on the stored violation features)
 # --------------------------------------------------------------------------
 def _is_readinc_uncoloured(case):
-    """DynamoOMPParallelLoopTrans / Dynamo0p3OMPLoopTrans accept an
-    uncoloured loop whose only shared-DoF increments are GH_READINC
-    (PSyLoop.has_inc_arg and Kern.incremented_arg only test INC)."""
+    """PSyLoop.has_inc_arg() only tests AccessType.INC, so a loop whose
+    only shared-DoF increments are GH_READINC is not recognised as needing
+    colouring by DynamoOMPParallelLoopTrans.validate,
+    Dynamo0p3OMPLoopTrans.validate and LFRicLoop.independent_iterations
+    (used by ACCLoopTrans); the gen-time guard (Kern.incremented_arg) has
+    the same INC-only test."""
     viol = case.get("viol", {})
     return (viol.get("kind") == "uncoloured_parallel" and
-            viol.get("directive") in ("omp parallel do", "omp do") and
+            viol.get("directive") in ("omp parallel do", "omp do",
+                                      "acc loop") and
             bool(viol.get("incs")) and
             all(i["access"] == "gh_readinc" for i in viol["incs"]))
 
